@@ -77,6 +77,8 @@ def strategy(tier):
                    st.lists(st.sampled_from(["req", "rep", "garble"]), max_size=10) | st.lists(st.sampled_from(["req", "rep", "garble"]), max_size=2),
                    st.lists(sfail, max_size=10) | st.lists(sfail, max_size=3),
                    st.lists(st.integers(0, 25), min_size=1, max_size=4), exhaust)
+    hs = st.tuples(hs, st.one_of(st.none(), st.none(), st.none(), st.tuples(st.sampled_from([0.95, 0.9, 0.8]), st.integers(0, 10**6)).map(list))).map(
+        lambda t: dict(t[0], rel=t[1]) if t[1] else t[0])
     return st.one_of(engine, engine, hs)
 
 
@@ -470,7 +472,8 @@ def _part_handshake(res, case):
         if any(k not in ok for k in kinds):
             raise InvalidCase(case)
         plan[step] = kinds
-    exhaust = case.get("exhaust")
+    rel = case.get("rel")
+    exhaust = case.get("exhaust") if not rel else None
     if exhaust is not None:
         if exhaust not in plan:
             raise InvalidCase(case)
@@ -478,10 +481,38 @@ def _part_handshake(res, case):
     sim = vworld.make_simulator(snap)
     eng = stepped.Engine()
     pol = _LossPolicy(plan, [int(x) for x in case.get("segs", [3])])
+    import geckolib.utils.simulator as simmod
+    import random as _random
+    saved_random = simmod.random
+    if rel:
+        # instead of the per-step plan: the simulator's own reliability knob (seeded draw) loses requests and single segments
+        plan = {k_: [] for k_ in plan}
+        pol = _LossPolicy(plan, [3])
+        simmod.random = _random.Random(int(rel[1]))
+        sim._reliability = float(rel[0])
     with eng.patched():
         spa = stepped.make_threaded_spa(eng, sim)
         eng.policy = pol
         spa.start_connect()
+        if rel:
+            try:
+                ok = stepped.run_until(eng, lambda: spa._is_connected and not eng.inbox and not spa._send_handlers, max_iterations=30000)
+            except Exception as exc:  # noqa
+                is_lib, site = classify_exception(exc)
+                if not is_lib or "Too many retries" in str(exc):
+                    if not is_lib:
+                        raise
+                    return plan      # the retry budget may legitimately run out under random loss
+                res.fail(f"C20|handshake|engine-died|{site}", f"{type(exc).__name__}: {exc} with simulator reliability {rel[0]}")
+                return plan
+            finally:
+                simmod.random = saved_random
+                sim._reliability = 1.0
+            if ok and spa.struct.status_block != sim.structure.status_block:
+                bad = [i for i in range(1024) if i >= len(spa.struct.status_block) or spa.struct.status_block[i] != sim.structure.status_block[i]][:6]
+                res.fail("C20|handshake|block-differs", f"simulator reliability {rel[0]}: connected but the client block ({len(spa.struct.status_block)} bytes) "
+                         f"differs from the simulator's at {bad}")
+            return plan
         if exhaust is not None:
             from geckolib import GeckoConfig
             n_retry, t_out = GeckoConfig.PROTOCOL_RETRY_COUNT, GeckoConfig.PROTOCOL_TIMEOUT_IN_SECONDS
@@ -556,9 +587,12 @@ def run_case(case) -> Result:
         res.label("handshake", f"handshake-lossy-steps-{lossy}")
         if any(len(v) >= 8 for v in plan.values()):
             res.label("handshake-near-retry-budget")
-        if case.get("exhaust"):
+        if case.get("exhaust") and not case.get("rel"):
             res.nontrivial = True
             res.label("handshake-step-never-answered")
+        if case.get("rel"):
+            res.nontrivial = True
+            res.label("handshake-simulator-reliability-below-1")
     else:
         raise InvalidCase(case)
     return res
